@@ -720,7 +720,7 @@ class NestedRun(object):
         vw = self.views[mid]
         if out[0] == 'ret':
             vw.items.append(('done', cid, 0, int(bool(out[1])), 0))
-            return out[1]
+            return flat.flavour(self.d, cid, out[1], len(vw.items))
         exc = flat.make_exc(out[1], out[2])
         vw.items.append(('done', cid, 1) + flat.canon_exc(exc))     # builtin kinds are recorded canonically
         raise exc
